@@ -44,7 +44,7 @@ def Term.topOp : Term → TopOp
   | _ => .none
 
 def Term.isComplexWith : Term → Option BoolOp
-  | .complex op _ _ => some op
+  | .complex op _ _ _ => some op
   | _ => none
 
 /-- `ComplexCriterion.needs_brackets` -/
@@ -54,7 +54,7 @@ def needsBrackets (self : BoolOp) (child : Term) : Bool :=
   | none => false
 
 def Term.alias? : Term → Option Str
-  | .field _ a _ | .val _ a | .wrapped _ a | .lit _ a | .neg _ a | .arith _ _ _ a | .basic _ _ _ a
+  | .field _ a _ | .complex _ _ _ a | .val _ a | .wrapped _ a | .lit _ a | .neg _ a | .arith _ _ _ a | .basic _ _ _ a
   | .not _ a | .isin _ _ _ a | .between _ _ _ a | .period _ _ _ a | .isnull _ a | .notnull _ a
   | .bitand _ _ a | .all _ a | .tuple _ a | .array _ a | .case _ _ a
   | .func _ _ _ _ _ _ _ _ _ _ a | .json _ a | .atTz _ _ _ a => a
@@ -86,6 +86,11 @@ def paginate (cls : QClass) (limit offset : Option Nat) : Doc :=
   | _ =>
       (match limit with | some n => limitDoc false n | none => []) ++
       (match off? with | some m => offsetDoc false m | none => [])
+
+/-- `_SetOperation.get_sql` tail: always the generic LIMIT / OFFSET forms -/
+def setopPaginate (limit offset : Option Nat) : Doc :=
+  (match limit with | some n => limitDoc false n | none => []) ++
+  (match offset with | some 0 => [] | some m => offsetDoc false m | none => [])
 
 /-- Vertica's hint splice on the finished text: `sql[:7] + hint + sql[6:]` -/
 def verticaSplice (hint : Str) (sql : Str) : Str :=
@@ -134,10 +139,11 @@ mutual
         let qc : Option Char := match c.quote with | .absent => some '"' | .given x => x
         let k := { c with quote := .given qc, withAlias := false }
         render k l ++ .kw cmp :: render k r ++ (if c.withAlias then aliasDoc c qc alias else [])
-    | .complex op l r =>
-        let d := render { c with subcriterion := needsBrackets op l } l ++ kws " " :: .kw op.text :: kws " " ::
-                 render { c with subcriterion := needsBrackets op r } r
-        parensIf c.subcriterion d
+    | .complex op l r alias =>
+        let k := { c with withAlias := false }
+        let d := render { k with subcriterion := needsBrackets op l } l ++ kws " " :: .kw op.text :: kws " " ::
+                 render { k with subcriterion := needsBrackets op r } r
+        parensIf c.subcriterion d ++ (if c.withAlias then aliasDoc { k with subcriterion := false } c.q alias else [])
     | .not t alias =>
         kws "NOT " :: render { c with subcriterion := true } t ++ aliasDoc { c with subcriterion := true } c.q alias
     | .isin t container negated alias =>
@@ -491,8 +497,7 @@ mutual
           (match orderbys with
            | [] => []
            | _ => kws " ORDER BY " :: joinDocs (K ",") (renderOrderBy { k with quote := .given k.q } selects none orderbys)) ++
-          (match limit with | some n => limitDoc false n | none => []) ++
-          (match offset with | some 0 => [] | some m => offsetDoc false m | none => [])
+          setopPaginate limit offset
         let body := parensIf c.subquery body
         if c.withAlias then body ++ aliasDoc k k.q alias else body
 
